@@ -202,6 +202,10 @@ class World:
             return -1, []
         raise core.HarnessError("unknown target %r" % (target,))
 
+    def stream_blocked(self, sid):
+        st = self.h._stream.get(sid)
+        return bool(st is not None and st.blocked)
+
     def peek(self, target):
         """Stream id resolve(target) would use (None = not enabled); no side effects."""
         saved = ({k: list(v) for k, v in self.slots.items()}, self.uni_next, self.bidi_next)
@@ -881,6 +885,7 @@ def work(item):
         w = build_world(config, history)
         before = w.canon()[1] if proto == "h3" else None
         sid = w.peek(msg["target"])
+        blocked = proto == "h3" and w.stream_blocked(sid)
         n = w.deliver(msg, chunking)
         if n is None:
             res.append((idx, chunking, None, "disabled", None, None))
@@ -891,7 +896,12 @@ def work(item):
             key = core.stable_hash((config, w.canon(),
                                     [lab for lab, _c in history if byl[lab]["qpack"]]
                                     + ([msg["label"]] if msg["qpack"] else [])))
-            conn_changed = True if proto != "h3" else dependents(before, w.canon()[1], msg)
+            if proto != "h3" or blocked or w.stream_blocked(sid):
+                # a stream blocked on QPACK is referenced by the decoder: encoder-stream
+                # messages depend on it
+                conn_changed = True
+            else:
+                conn_changed = dependents(before, w.canon()[1], msg)
             succ = successors(w, msg, conn_changed, sid, tier, level + 1, depth)
         res.append((idx, chunking, key, outcome, viol, succ))
     return res
